@@ -1,6 +1,6 @@
 Require Extraction.
 Require Import ExtrOcamlBasic.
-From CSL Require Import Base.Prelude Base.U64 Num.Value Deposits.Deposits Builder.Totals Builder.Change Builder.Scenario Builder.MoreEntry.
+From CSL Require Import Base.Prelude Base.U64 Num.Value Deposits.Deposits Builder.Totals Builder.Change Builder.Scenario Builder.MoreEntry Builder.TxReader.
 From CSL Require Collateral.Collateral.
 Extraction Language OCaml.
 Definition keepN : N := N.add 0 0.
@@ -10,4 +10,4 @@ Definition col_return_addr (o : Collateral.output) : bytes := Collateral.o_addr 
 Definition col_return_amount (o : Collateral.output) : value := Collateral.o_amount o.
 Extraction "model_c05.ml" keepN keepZ keepNat run_ops run_ops2 col_new judge mkTape mkImplTx mkConfig new_state cert_of_tag cddl_tag cert_coin
   ma_of_entries ma_entries mint_entries value_new mkValue mkOutput get_fee_if_set body_of known_mint_min
-  col_return_addr col_return_amount cs_inputs cs_return cs_total.
+  col_return_addr col_return_amount cs_inputs cs_return cs_total judge_bytes read_tx impl_of_raw.
